@@ -14,7 +14,8 @@ from mc import seams
 from mc.core import Explorer, violation
 
 ASSUMPTIONS = ["n=6 samples, d=3 features; scales up to 1000; learning rate 0.1, 3 epochs"]
-FAMILIES = ["plain", "x10", "x1000", "zero_column", "constant_column", "duplicated_column", "duplicated_rows", "all_rows_equal", "n_equals_K", "tiny_scale"]
+FAMILIES = ["plain", "x10", "x1000", "zero_column", "constant_column", "duplicated_column", "duplicated_rows", "all_rows_equal", "n_equals_K", "tiny_scale",
+            "copies_x4", "all_equal_20"]
 
 
 def make_data(family, seed):
@@ -37,7 +38,70 @@ def make_data(family, seed):
         X[:] = X[0]
     elif family == "n_equals_K":
         X = X[:3]
+    elif family == "copies_x4":           # every sample present four times (24 rows): quantities that vanish in exact arithmetic are rounding noise
+        X = np.tile(X, (4, 1))
+    elif family == "all_equal_20":
+        X = np.tile(X[:1], (20, 1))
     return X
+
+
+def gemini_case(case):
+    """GEMINI level: saturated / sample-independent / single-cluster predictions x degenerate affinities (constant, rank one, copies of few
+    samples, kernels of features scaled by 1000): score and gradient are finite, with and without the gradient requested."""
+    ti, akind, pkind, n, t, seed = case
+    from props.c02 import TARGETS, _gemini
+    from sklearn.metrics import pairwise_distances, pairwise_kernels
+    target, dist = TARGETS[ti]
+    rs = np.random.RandomState(70_000 + 13 * seed + 7 * t + n)
+    base = rs.normal(size=(n, 3))
+    if akind == "copies":
+        base = np.tile(base[: max(2, n // 4)], (n, 1))[:n]
+    elif akind == "all_equal":
+        base = np.tile(base[:1], (n, 1))
+    elif akind == "x1000":
+        base = base * 1000
+    A = None
+    if dist == "mmd":
+        if akind == "rank_one":
+            u = rs.normal(size=n)
+            A = np.outer(u, u)
+        elif akind == "constant":
+            A = np.full((n, n), 0.7)
+        else:
+            A = pairwise_kernels(base, metric=("sigmoid", "rbf", "linear", "poly")[t % 4])
+    elif dist == "wasserstein":
+        A = pairwise_distances(base, metric=("euclidean", "l1")[t % 2])
+        if akind in ("rank_one", "constant"):
+            A = np.abs(np.subtract.outer(base[:, 0], base[:, 0])) if akind == "rank_one" else (1 - np.eye(n)) * 0.7
+    K = 1 if pkind == "single_cluster" else 3
+    if pkind == "one_hot":
+        P = np.eye(K)[rs.randint(K, size=n)]
+    elif pkind == "rows_equal":
+        P = np.tile(rs.dirichlet(np.ones(K)), (n, 1))
+    elif pkind == "near_uniform":
+        P = np.full((n, K), 1.0 / K) + 1e-9 * rs.normal(size=(n, K))
+        P = P / P.sum(1, keepdims=True)
+    elif pkind == "empty_cluster":
+        P = np.concatenate([rs.dirichlet(np.ones(2), size=n), np.zeros((n, 1))], axis=1)
+    elif pkind == "single_cluster":
+        P = np.ones((n, 1))
+    else:
+        P = rs.dirichlet(np.ones(K), size=n)
+    g = _gemini(target, {"kernel": "precomputed"} if dist == "mmd" else ({"metric": "precomputed"} if dist == "wasserstein" else {}))
+    where = dict(estimator="-", gemini=f"{target[0]}(ovo={target[1]})", data=akind, predictions=pkind, n=n)
+    v = []
+    with np.errstate(all="ignore"), warnings.catch_warnings():
+        warnings.simplefilter("ignore")
+        try:
+            s0 = g(P.copy(), A)
+            s1, G = g(P.copy(), A, return_grad=True)
+        except Exception as e:  # noqa
+            return {"v": [violation("raises_on_legal_input", {"error": repr(e)[:300]}, exc=type(e).__name__, **where)], "stats": {"evals": 1}}
+    if not (np.isfinite(s0) and np.isfinite(s1)):
+        v.append(violation("non_finite_score", {"score": float(s0), "with_gradient": float(s1), "P": P if n <= 6 else "seeded"}, **where))
+    if not np.all(np.isfinite(G)):
+        v.append(violation("non_finite_gradient", {"n_bad": int((~np.isfinite(G)).sum()), "P": P if n <= 6 else "seeded"}, **where))
+    return {"v": v, "nt": [case], "stats": {"evals": 2}, "out": [(ti, akind, pkind)], "sample": {"config": where}}
 
 
 def finite_case(case):
@@ -55,6 +119,8 @@ def finite_case(case):
             spec["batch_size"] = bs
         if name in M.SPARSE:
             spec["alpha"] = 0.5
+    if "|" in str(gemini):                    # convenience MMD estimator with a non-default kernel
+        spec["kernel"] = gemini.split("|")[1]
     model, y, _ = C.build(name, spec, X, seed)
     where = dict(estimator=name, gemini=gemini, solver=solver, data=family, n_clusters=K, batch_size=bs, mode=mode)
     v = []
@@ -115,6 +181,8 @@ def explorers(tier, seed):
     cases = []
     for name in M.ESTIMATORS:
         gems = M.ALL_GEMINIS if name in M.GENERIC_GEMINI else ["fixed"]
+        if name in M.HAS_KERNEL:
+            gems = gems + ["fixed|rbf", "fixed|sigmoid_p", "fixed|poly_p"]
         for gemini in gems:
             for solver in (("adam", "sgd") if name != "Kauri" else ("-",)):
                 for family in FAMILIES:
@@ -123,11 +191,18 @@ def explorers(tier, seed):
                             for mode in (("fit", "path") if name in M.SPARSE else ("fit",)):
                                 if not thorough:
                                     # quick: every (estimator, gemini, family) once with K rotating; solver/batch/K cross product on three families
-                                    full = family in ("x1000", "all_rows_equal", "duplicated_rows", "zero_column")
+                                    full = family in ("x1000", "all_rows_equal", "duplicated_rows", "zero_column", "copies_x4", "all_equal_20")
                                     if not full and (solver == "sgd" or bs == 1 or K != (1 if FAMILIES.index(family) % 2 else 3)):
                                         continue
                                 cases.append((name, gemini, solver, family, K, bs, mode, seed))
-    return [Explorer("degenerate_inputs", "props.c17", "finite_case", cases, chunk=16, floor=500, case_timeout=600,
+    cg = [(ti, a, p_, n, t, seed) for ti in range(13) for a in ("generic", "copies", "all_equal", "x1000", "rank_one", "constant")
+          for p_ in ("interior", "one_hot", "rows_equal", "near_uniform", "empty_cluster", "single_cluster") for n in (6, 20, 80)
+          for t in range(8 if thorough else 4) if not (a in ("rank_one", "constant") and ti < 9)]
+    return [Explorer("degenerate_affinities_and_predictions", "props.c17", "gemini_case", cg, chunk=64, floor=500,
+                     rule="13 GEMINI class/flag targets x affinity family {generic, copies of few samples, all samples equal, features x1000, rank-one, constant} "
+                          "(MMD kernels sigmoid/rbf/linear/poly, Wasserstein euclidean/l1) x predictions {interior, one-hot, sample-independent rows, uniform +1e-9 noise, "
+                          "an empty cluster, a single cluster} x n in {6,20,80} x seed-generic draws: score (with and without gradient) and gradient finite"),
+            Explorer("degenerate_inputs", "props.c17", "finite_case", cases, chunk=16, floor=500, case_timeout=600,
                      rule="18 estimators x 13 GEMINIs (generic models) x solver x data family " + str(FAMILIES) + " x n_clusters {1,3} x batch_size {None,1} x "
                           "{fit, path}: no exception, every optimiser direction and parameter finite at every step, finite weights / probabilities / score / "
                           "path histories; quick keeps the full solver x batch x K product on three families; non-trivial = non-plain family",
